@@ -10,8 +10,8 @@ import (
 	"math/big"
 	"math/rand"
 	"os"
-	"sync"
 	"path/filepath"
+	"sync"
 	"time"
 
 	"github.com/gr33nbl00d/caddy-revocation-validator/core"
